@@ -634,6 +634,8 @@ class Frame:
                 return TOP
             if short in ("ones_like", "zeros_like", "empty_like", "full_like") and av:
                 v = av[0]
+                if short == "full_like" and len(av) >= 2 and not (isinstance(av[1], Sc) and av[1].dep == "const"):
+                    return elementwise(Arr(NINF, v.dlen, False, None, "") if isinstance(v, Arr) else CONST, av[1])  # the fill value's dependence
                 if isinstance(v, Arr):
                     return Arr(NINF, v.dlen, False, None, "")
                 return CONST
